@@ -27,7 +27,7 @@ ASSUMPTIONS = [
     "the stand-in's reply formats are those of sugar_extension/CspuzSugarInterface.java",
     "real Sugar/csugar/cspuz_core are absent offline; routes (ii)/(iii) exercise cspuz' side of the protocol only",
 ]
-REQUIRED = ["c02.planted_latin", "c02.planted_latin_judged_by_smt", "msolve.solve_judged", "msolve.key_decided", "msolve.key_undecided", "c02.route.z3", "c02.route.adv",
+REQUIRED = ["c02.big_programs", "msolve.probe_keys", "msolve.probe_decided_confirmed", "msolve.probe_undecided_confirmed", "c02.planted_latin", "c02.planted_latin_judged_by_smt", "msolve.solve_judged", "msolve.key_decided", "msolve.key_undecided", "c02.route.z3", "c02.route.adv",
             "c02.route.native", "c02.tables_compared", "c02.unsat_programs", "c02.iter.ge3",
             "c02.keys.none", "c02.keys.all", "c02.keys.some", "c02.chooser.stubborn", "c02.chooser.scatter", "c02.followup_solves", "c02.ast_facts_checked"]
 CHOOSERS = ["first", "last", "random", "stubborn", "scatter"]
@@ -174,6 +174,12 @@ def run(ctx):
     for k in range(2 if ctx.tier == "quick" else 12):
         with ctx.guard(300):
             planted_latin(ctx, st, rng)
+    # programs far beyond the exact oracles (81-200 keys): exactness is probed key by key through the back end's own yes/no answers
+    st.probe, st.probe_owner = 10, "C02"
+    for k in range(3 if ctx.tier == "quick" else 12):
+        with ctx.guard(300):
+            big_program(ctx, rng)
+    st.probe = 0
     for k in range(n):
         case = gen_case(rng)
         choosers = CHOOSERS if ctx.tier == "thorough" else rng.sample(CHOOSERS, 2) + ["stubborn"]
@@ -232,6 +238,69 @@ def planted_latin(ctx, st, rng):
             if (y, x) in given and got is None:
                 ctx.violation("planted:given-undecided", f"given cell {(y, x)} reported None", ctx.current_case)
                 return
+
+
+def big_program(ctx, rng):
+    import cspuz
+
+    kind = rng.choice(["sudoku", "latin", "colouring", "one-hot"])
+    s = cspuz.Solver()
+    if kind == "one-hot":
+        # at most one of many keys is true: every model differs from the first in a single key, so the refinement loop needs about as
+        # many rounds as there are keys (nothing is determined in the end)
+        nv = rng.randint(45, 130)
+        vs = [s.bool_var() for _ in range(nv)]
+        s.add_answer_key(vs)
+        s.ensure(cspuz.count_true(vs) <= 1)
+        ctx.current_case = {"kind": "big", "program": f"at most one of {nv} keys"}
+        s.solve()
+        ctx.case(["big", kind, nv, rng.random()], nontrivial=True)
+        ctx.count("c02.big_programs")
+        ctx.count("c02.big_programs." + kind)
+        return
+    if kind == "sudoku":
+        from cspuz.puzzle import sudoku as SU
+
+        n = 3
+        size = 9
+        canon = [[(n * (y % n) + y // n + x) % size + 1 for x in range(size)] for y in range(size)]
+        perm = rng.sample(range(1, 10), 9)
+        full = [[perm[v - 1] for v in row] for row in canon]
+        dens = rng.choice([0.25, 0.4, 0.55])
+        p = [[full[y][x] if rng.random() < dens else 0 for x in range(size)] for y in range(size)]
+        ctx.current_case = {"kind": "big", "program": "sudoku 9x9", "givens": p}
+        SU.solve_sudoku(p, n=3)  # builds its own Solver and calls solve(): 81 keys
+        nk = 81
+    elif kind == "latin":
+        m = rng.choice([6, 7, 8])
+        a = s.int_array((m, m), 1, m)
+        s.add_answer_key(a)
+        for i in range(m):
+            s.ensure(cspuz.alldifferent(a[i, :]))
+            s.ensure(cspuz.alldifferent(a[:, i]))
+        sh = rng.sample(range(m), m)
+        for y in range(m):
+            for x in range(m):
+                if rng.random() < 0.35:
+                    s.ensure(a[y, x] == (sh[x] + y) % m + 1)
+        ctx.current_case = {"kind": "big", "program": f"latin {m}x{m}"}
+        s.solve()
+        nk = m * m
+    else:
+        nv = rng.randint(60, 200)
+        vs = [s.int_var(0, 2) for _ in range(nv)]
+        s.add_answer_key(vs)
+        for _ in range(int(nv * rng.choice([1.2, 1.8, 2.4]))):
+            u, v = rng.sample(range(nv), 2)
+            s.ensure(vs[u] != vs[v])
+        for _ in range(nv // 6):
+            s.ensure(vs[rng.randrange(nv)] == rng.randrange(3))
+        ctx.current_case = {"kind": "big", "program": f"3-colouring of {nv} vertices"}
+        s.solve()
+        nk = nv
+    ctx.case(["big", kind, nk, rng.random()], nontrivial=True)
+    ctx.count("c02.big_programs")
+    ctx.count("c02.big_programs." + kind)
 
 
 def fixed_cases():
